@@ -10,3 +10,13 @@ REG["C24"] = dict(
     trusted_base=["verif_export.go accessors for internal/quicvarint"],
     assumes=["uint64 inputs modelled as N below 2^64; len(Value()) < 2^62"],
 )
+
+REG["C36"] = dict(
+    runner="C36", corr=["Corr.C36Corr"], n=dict(quick=400, thorough=8000), race_suite="C36race",
+    rule="random Put/Get/Put-nil histories (2..31 ops) over 2..7 keys and capacities 1..5 (and <1 = default 64), a fixed "
+         "corpus first; plus 4-goroutine concurrent histories checked for linearizability (porcupine) against a reference "
+         "LRU map. Distinct by (capacity, history); non-trivial when the history has at least 4 operations.",
+    trusted_base=["porcupine v1.3.0 linearizability checker (concurrent part only, observational)"],
+    assumes=["each Put/Get holds the cache mutex for its whole body (observed by the concurrent runs, not proved); "
+             "session keys and states modelled as opaque identities"],
+)
